@@ -173,3 +173,6 @@ def run(ck, prog, tier, load):
             guarded = any(c[0] == "discr" and e_has_field(c, r"ServiceConfig\.default$") and lab == "Some" for c, lab, a in b.guards(bb))
             ck.ob("C09-f.configure-keeps-default", b.npath.split("::")[-2] + "::configure", some and guarded, b, bb,
                   "the builder's default service is overwritten only with Some(default) taken on the Some edge of the configuration's default (never with an empty option)")
+    # routing matches the path of THIS request: the recycled Url object is overwritten completely (shared with C11-d)
+    from .c11 import url_update
+    url_update(ck, prog, "C09-d")
